@@ -7,6 +7,7 @@
 #include "ArrayTheory.h"
 #include "ArrayHelpers.h"
 
+#include <common/TreeOps.h>
 #include <rewriters/Rewritings.h>
 
 namespace opensmt {
@@ -15,6 +16,7 @@ PTRef ArrayTheory::preprocessAfterSubstitutions(PTRef fla, PreprocessingContext 
     // TODO: simplify select over store on the same index
     fla = rewriteDistincts(getLogic(), fla);
     fla = instantiateReadOverStore(getLogic(), fla);
+    AppearsInUfVisitor(getLogic()).visit(fla);
     return fla;
 }
 
